@@ -80,7 +80,9 @@ def World.onTOne (w : World) (toks : List String) : World :=
   let pa := pay (w.pending.getD 3 "-")
   let pb := pay (w.pending.getD 4 "-")
   let w := if arg toks "connect" != "ok/ok" then w.fail "C20" "connect" s!"pairwise channel connect {arg toks "connect"}" else w
-  let wantTopics := if pa.isEmpty && pb.isEmpty then 0 else 1
+  -- (a third peer's publication, when there is one, goes to the same — single — pairwise topic)
+  let hasThird := w.pending.any (fun t => t.startsWith "third=")
+  let wantTopics := if pa.isEmpty && pb.isEmpty && !hasThird then 0 else 1
   let w := if natOr (arg toks "topics") 99 != wantTopics then
       w.fail "C20" "channel" s!"the two ends published on {arg toks "topics"} distinct channel names" else w
   let wantAB := pa.map (fun p => s!"{a}:{if p == "" || p == "-" then "." else p}")
